@@ -8,7 +8,7 @@ import (
 	"golang.org/x/tools/go/ssa"
 )
 
-var listDuality = newDuality(false, "prev", "next", "front", "back", "before", "after")
+var listDuality = newDuality(false, "prev", "next", "front", "back", "before", "after", "pred", "succ", "first", "last", "head", "tail", "predecessor", "successor")
 
 func init() {
 	register(&Property{
